@@ -110,7 +110,9 @@ def dictByName {α} (name : α → String) (xs : List α) : List α :=
 def gName (g : Terms.GTerm) : String :=
   (match g.expr with | .intercept => "1" | t => t.name) ++ "|" ++ g.factor.name
 
-def designMatrices (table : Parser.Table) (ops : Resolver.OpTable) (actions : List String)
+/-- the whole pipeline, parametrised by how the used variables are read off the formula -/
+def designMatricesWith (usedOf : Expr → Terms.ModelV → List String)
+    (table : Parser.Table) (ops : Resolver.OpTable) (actions : List String)
     (formula : String) (env : Env) (naAction : String) : Except PErr Built := do
   let ts ← match Scanner.scan formula.toList with
     | .ok ts => pure ts
@@ -123,7 +125,7 @@ def designMatrices (table : Parser.Table) (ops : Resolver.OpTable) (actions : Li
     | .error er => .error (.resolve er)
   let atoms := atomTable e
   -- missing values: `description.var_names ∩ data.columns`, then the policy
-  let used := (modelVars atoms m).filter ((env.frame.map (·.name)).contains ·)
+  let used := (usedOf e m).filter ((env.frame.map (·.name)).contains ·)
   let frame ← match NA.naStep actions naAction used env.frame with
     | .ok f => pure f
     | .error _ => .error .na
@@ -160,5 +162,20 @@ def designMatrices (table : Parser.Table) (ops : Resolver.OpTable) (actions : Li
       let out ← liftE (trainTerm env atoms ⟨(Terms.CTerm.term cs).name, cs.map (fun a => (a.name, true))⟩ false true)
       pure (some out)
   pure ⟨frame, response, common, group⟩
+
+/-- the pipeline with every variable WRITTEN at a term position of the formula counted as used
+(`NA.formulaVars`): the function the C04 / C15 / C17 whole-pipeline theorems are stated about.  It
+coincides with `designMatricesModel` whenever no variable has all its terms removed again by `-`
+(then the two selections of columns are the same set). -/
+def designMatrices (table : Parser.Table) (ops : Resolver.OpTable) (actions : List String)
+    (formula : String) (env : Env) (naAction : String) : Except PErr Built :=
+  designMatricesWith (fun e _ => NA.formulaVars e) table ops actions formula env naAction
+
+/-- the pipeline as the code runs it: the used variables are those of the RESOLVED model
+(`Model.var_names` walks the terms that are left); this instance is what the driver executes and
+what is compared with the implementation. -/
+def designMatricesModel (table : Parser.Table) (ops : Resolver.OpTable) (actions : List String)
+    (formula : String) (env : Env) (naAction : String) : Except PErr Built :=
+  designMatricesWith (fun e m => modelVars (atomTable e) m) table ops actions formula env naAction
 
 end FormulaeModel.Pipeline
